@@ -9,3 +9,4 @@ import Vise.Vm
 import Vise.Engine
 import Vise.Db
 import Vise.PgTx
+import Vise.Asm
